@@ -365,6 +365,9 @@ def rules(ctx):
     r6_no_inplace_on_model_values(ctx)
     r7_argument_views(ctx)
     r10_read_api_stores_nothing(ctx)
+    # 'do not modify the table passed in': the readers work on a deep copy of the caller's table (same rule as C14.R1)
+    from .c14 import r1_copy
+    r1_copy(ctx, rid="C13.R11")
     # an algorithm works on its own deep copy of the settings' parameters (nested dictionaries included): the settings object passed in is never modified (same rule as C11.R7)
     from .c11 import r7_deepcopy
     r7_deepcopy(ctx, rid="C13.R9")
